@@ -1345,7 +1345,7 @@ impl<'a, R: FileManager> FrontendCtx<'a, R> {
                 }
             }
             RuntypeKind::AllOf(vs) => {
-                let mut acc = BTreeMap::new();
+                let mut acc: BTreeMap<String, Optionality<Runtype>> = BTreeMap::new();
 
                 for v in vs {
                     let extracted =
@@ -1353,10 +1353,17 @@ impl<'a, R: FileManager> FrontendCtx<'a, R> {
 
                     // check that if items have the same key, they have the same value
 
-                    for (k, v) in &extracted {
+                    let mut extracted = extracted;
+                    for (k, v) in extracted.iter_mut() {
                         if let Some(existing) = acc.get(k)
                             && existing != v
                         {
+                            // one type, required by one member and optional in the other: the
+                            // intersection requires it ({ a: T } & { a?: T } is { a: T })
+                            if existing.inner() == v.inner() {
+                                *v = v.inner().clone().required();
+                                continue;
+                            }
                             return self.error(
                                 anchor,
                                 DiagnosticInfoMessage::ObjectHasConflictingKeyValueInIntersection,
